@@ -7,5 +7,7 @@ CONSTANTS
   MaxNodes = 5
   PairNodes = 0
   DoEmit = TRUE
+  AP = "-"
+  KP = "#"
 INVARIANTS Thm Emit
 CHECK_DEADLOCK FALSE
